@@ -284,6 +284,14 @@ class Analyzer:
                 state[p] = frozenset([("P", p)])
         for x in a.kwonlyargs:
             state[x.arg] = frozenset([("P", x.arg)])
+        # a parameter annotated `int` indexes like an integer (basic indexing: x[:, i] is a view), one annotated as an array like an array
+        for x in a.posonlyargs + a.args + a.kwonlyargs:
+            if x.annotation is not None:
+                at = u(x.annotation)
+                if at in ("int", "np.integer", "numbers.Integral"):
+                    kinds[x.arg] = "int"
+                elif at in ("np.ndarray", "numpy.ndarray", "np.array", "ArrayLike", "List[int]"):
+                    kinds[x.arg] = "array"
         if a.vararg:
             state[a.vararg.arg] = UNK
         if a.kwarg:
